@@ -37,7 +37,7 @@ func init() {
 	register(&c14{base{
 		id:          "C14",
 		level:       lvlExploration,
-		rule:        "graph mode: a bounded model (PAR2: 3 files, 3 recovery blocks in 2 volume files; PAR1: 3 files, 2 volumes; per-file state in {original, flipped byte, shifted by an inserted byte, truncated, another protected file's content, another protected file's content with a flipped byte, garbage appended, last byte (a trailing zero) lost, CRC-32-preserving bit pattern, deleted}; PAR2 additionally with duplicate-slice content; per-volume state in {present, absent}) is explored to closure: every one of the 10^3 x 4 states is materialised on a real directory and every operation edge {Verify, Repair, Repair+double-check} is executed through the recording file-system seam (damage/restore/volume edges only move between states of the product and need no execution). Per edge: Verify leaves the directory unchanged; a successful Repair is followed by a clean Verify and by a second Repair that issues no write event; after a failed Repair every file is either what it was before or its original, and if the failed attempt wrote anything while the state was repairable with all recovery files back, it must still be repairable then; the resulting directory must again be a state of the model; and from every state whose damage is within capacity once all recovery files are restored (decided from the bytes by the brute-force finder / reference arithmetic) Repair must return to the all-original state. walk mode: seeded long random histories of damage, restore, volume loss/return, Verify and Repair on one persistent directory of a larger set, same per-step conditions. A key is (format, state tuple, operation). dangling mode: a protected file is a symbolic link into a deleted directory (missing and unwritable); Repair through the one-shot entry points and twice through one Decoder object (NewDecoder/Load*/Repair, link removed in between): nil means restored, and after the link is gone the next attempt must succeed. Mode all-lost: tiny sets whose recovery data covers every slice, all files deleted / emptied / overwritten, repaired twice.. Model state otherflip (another file's content with a flipped byte); if a failed Repair wrote anything while the state was repairable with every recovery file back, it must still be repairable then.. Every fourth all-lost set has a file above 16 KiB.",
+		rule:        "graph mode: a bounded model (PAR2: 3 files, 3 recovery blocks in 2 volume files; PAR1: 3 files, 2 volumes; per-file state in {original, flipped byte, shifted by an inserted byte, truncated, another protected file's content, another protected file's content with a flipped byte, garbage appended, last byte (a trailing zero) lost, CRC-32-preserving bit pattern, deleted}; PAR2 additionally with duplicate-slice content; per-volume state in {present, absent}) is explored to closure: every one of the 10^3 x 4 states is materialised on a real directory and every operation edge {Verify, Repair, Repair+double-check} is executed through the recording file-system seam (damage/restore/volume edges only move between states of the product and need no execution). Per edge: Verify leaves the directory unchanged; a successful Repair is followed by a clean Verify and by a second Repair that issues no write event; after a failed Repair every file is either what it was before or its original, and if the failed attempt wrote anything while the state was repairable with all recovery files back, it must still be repairable then; the resulting directory must again be a state of the model; and from every state whose damage is within capacity once all recovery files are restored (decided from the bytes by the brute-force finder / reference arithmetic) Repair must return to the all-original state. walk mode: seeded long random histories of damage, restore, volume loss/return, Verify and Repair on one persistent directory of a larger set, same per-step conditions. A key is (format, state tuple, operation). dangling mode: a protected file is a symbolic link into a deleted directory (missing and unwritable); Repair through the one-shot entry points and twice through one Decoder object (NewDecoder/Load*/Repair, link removed in between): nil means restored, and after the link is gone the next attempt must succeed. Mode all-lost: tiny sets whose recovery data covers every slice, all files deleted / emptied / overwritten, repaired twice.. Model state otherflip (another file's content with a flipped byte); if a failed Repair wrote anything while the state was repairable with every recovery file back, it must still be repairable then.. Every fourth all-lost set has a file above 16 KiB.. Mode copy-deleted (a file and its exact copy protected, one deleted, with and without recovery files); repeated content in all-lost sets.",
 		assumptions: append([]string{"state between operations is only the directory (decoders are rebuilt from disk on every call), so edges can be executed from re-materialised states"}, commonAssumptions...),
 		opts:        core.WorkerOpts{CrashIsViolation: true, WallSeconds: 2400, Exhaustive: true, Extra: map[string]interface{}{"exhaustive_subspace": "bounded model: 10^3 file-state tuples x 4 volume masks x {verify, repair, repair+doublecheck}, PAR1 and PAR2"}},
 	}})
